@@ -26,7 +26,7 @@ BOUNDS = {'condition kinds': 'X of every kind {mysterious, null, boolean, number
           'generated programs': 'EVERY program of the grammar  Block ::= Stmt{0..3};  Stmt ::= say <marker> | <runtime error> | If c Block [Else Block] | While/Until <2 iterations> Block | Break | Continue (inside loops)  with at most 4 statements (thorough 5, plus all 6-statement programs without until / error statements), nesting <= 3, empty blocks included, every condition a symbolic placeholder (outside loops: any double; inside loops: compared with the loop counter)',
           'programs': 'plus the %d templates of this file (if / else, nested ifs, while, until, break / continue directly and from nested ifs, nested loops, errors inside branches and loops), parsed by the real parser' % len(TEMPLATES),
           'values': 'every number placeholder is any double (conditions) or any double in the stated range (loop bounds, <= 4 iterations); string placeholders are any string',
-          'observables': 'every line written, in order, and the outcome (success / error class)'}
+          'observables': 'every line written, in order, and the outcome (success / runtime error)'}
 OUTSIDE = ['programs outside the templates; deeper nesting than 3; break / continue outside loops (only checked for crashes: C09)']
 ASSUMPTIONS = C03.ASSUMPTIONS + ['reference interpreter (mirsym/refinterp.py) = the scoping / control-flow rules of the statement, validated per run against the native build on the repository\'s own test programs',
                                  'Write / BufRead are environment models (one record per call)']
